@@ -210,21 +210,35 @@ def eval_context_partition(repo: Repo, fn: ast.FunctionDef, cls_name: str = "ACS
     sites = []  # (statements to run, name of the list variable)
     for st in walk_no_nested(fn):
         if isinstance(st, ast.Assign) and norm(st.targets[0]) == "self.assoc._accepted_cx":
-            src = None
-            for c in ast.walk(st.value):
-                if isinstance(c, ast.comprehension) and isinstance(c.iter, ast.Name):
-                    src = c.iter.id
             blk = None
             for p in ast.walk(fn):
                 for f_ in ("body", "orelse", "finalbody"):
                     b = getattr(p, f_, None)
                     if isinstance(b, list) and any(x is st for x in b):
                         blk = b
-            if src is None or blk is None:
-                raise Unsupported(f"{fn.name}: `_accepted_cx = ...` is not a comprehension over a local list")
+            if blk is None:
+                raise Unsupported(f"{fn.name}: `_accepted_cx = ...` not found in a block")
             i = blk.index(st)
-            run = [s_ for s_ in blk[max(0, i - 1): i + 3] if isinstance(s_, ast.Assign) and norm(s_.targets[0]) in ("self.assoc._accepted_cx", "self.assoc._rejected_cx")]
-            sites.append(("inline", run, src, st))
+
+            def _touches(x):
+                return any(isinstance(y, ast.Attribute) and y.attr in ("_accepted_cx", "_rejected_cx") for y in ast.walk(x))
+
+            lo = i - 1 if i > 0 and _touches(blk[i - 1]) else i
+            hi = i
+            while hi + 1 < len(blk) and _touches(blk[hi + 1]):
+                hi += 1
+            run = blk[lo:hi + 1]
+            src = None
+            for r_ in run:
+                for c in ast.walk(r_):
+                    if isinstance(c, ast.comprehension) and isinstance(c.iter, ast.Name):
+                        src = c.iter.id
+                    if isinstance(c, ast.For) and isinstance(c.iter, ast.Name):
+                        src = c.iter.id
+            if src is None:
+                raise Unsupported(f"{fn.name}: the list the accepted / rejected tables are filled from was not found")
+            if not any(k_ == "inline" and w_[0] is run[0] for k_, w_, _s, _t in sites):
+                sites.append(("inline", run, src, st))
         if isinstance(st, ast.Expr) and isinstance(st.value, ast.Call) and isinstance(st.value.func, ast.Attribute) and norm(st.value.func.value) == "self" and ci is not None:
             h = ci.methods.get(st.value.func.attr)
             if h is not None and any(isinstance(a, ast.Assign) and norm(a.targets[0]).endswith("._accepted_cx") for a in ast.walk(h)) and len(st.value.args) == 1:
